@@ -6,6 +6,7 @@ import vlib
 
 def run(ctx):
     recs = ofcorpus.run_families(ctx, "C13", ofcorpus.FAMS.get("C13"))
+    recs += ofcorpus.run_packets(ctx, "C13")
     viol, known = ofcorpus.settle(ctx, "C13", recs)
     return vlib.finish(ctx, "model_checking", ofcorpus.RULES["C13"] + ofcorpus.corpus_text(ctx), viol, known,
                        ofcorpus.ASSUME, exhaustive=False)
